@@ -49,6 +49,9 @@ const BIN_SAME: &[&str] = &[
 ];
 const BIN_CMP: &[&str] = &[
     "equal", "greater", "greater_signed", "greater_or_equal", "greater_or_equal_signed",
+    // a compound constructor (builds `not(equal(a, b))`): only repeatability and injectivity of
+    // whatever it returns are checked, not its shape
+    "distinct",
 ];
 
 fn static_name(n: &str) -> &'static str {
@@ -618,6 +621,10 @@ fn execute(p: &Programs, n_calls: &mut u64, probes: &mut FxHashMap<&'static str,
                     "shift_right" => c.shift_right(x, y),
                     "arithmetic_shift_right" => c.arithmetic_shift_right(x, y),
                     "equal" => c.equal(x, y),
+                    "distinct" => {
+                        let e = c.equal(x, y);
+                        c.not(e)
+                    }
                     "greater" => c.greater(x, y),
                     "greater_signed" => c.greater_signed(x, y),
                     "greater_or_equal" => c.greater_or_equal(x, y),
@@ -665,6 +672,7 @@ fn execute(p: &Programs, n_calls: &mut u64, probes: &mut FxHashMap<&'static str,
                     "shift_right" => ctx.shift_right(x, y),
                     "arithmetic_shift_right" => ctx.arithmetic_shift_right(x, y),
                     "equal" => ctx.equal(x, y),
+                    "distinct" => ctx.distinct(x, y),
                     "greater" => ctx.greater(x, y),
                     "greater_signed" => ctx.greater_signed(x, y),
                     "greater_or_equal" => ctx.greater_or_equal(x, y),
@@ -764,6 +772,7 @@ fn execute(p: &Programs, n_calls: &mut u64, probes: &mut FxHashMap<&'static str,
                     (Call::True, Key::Lit(1, b)) => b == "1",
                     (Call::False, Key::Lit(1, b)) => b == "0",
                     (Call::Un(op, a), Key::Op(kop, ch, _)) => kop == op && *ch == vec![refnum(arg(*a))],
+                    (Call::Bin("distinct", _, _), Key::Op(..)) => true,
                     (Call::Bin(op, a, b), Key::Op(kop, ch, _)) => {
                         let expect = if *op == "equal" && kop == "arr_equal" { "arr_equal" } else { op };
                         kop == expect && *ch == vec![refnum(arg(*a)), refnum(arg(*b))]
@@ -1076,6 +1085,7 @@ pub fn apply_call_plain(ctx: &mut Context, call: &Call, res: &[Option<ExprRef>])
                 "shift_right" => ctx.shift_right(x, y),
                 "arithmetic_shift_right" => ctx.arithmetic_shift_right(x, y),
                 "equal" => ctx.equal(x, y),
+                "distinct" => ctx.distinct(x, y),
                 "greater" => ctx.greater(x, y),
                 "greater_signed" => ctx.greater_signed(x, y),
                 "greater_or_equal" => ctx.greater_or_equal(x, y),
